@@ -13,6 +13,7 @@ package sys
 
 import (
 	"strconv"
+	"sync"
 	"time"
 
 	. "github.com/Comcast/rulio/core"
@@ -150,5 +151,31 @@ func VH_C17_reuse(linear, ttl int) {
 	}
 	// (when an expired entry is dropped — at the release that finds it expired — is an
 	// internal matter; the property only asks for transparency, see VH_C17_differential)
+	vreach("end")
+}
+
+// VH_C17_single_load [concurrency mode]: two goroutines make the first request for the
+// same location at the same time: the location is loaded once and both get one instance.
+func VH_C17_single_load(linear, ttl int) {
+	vsetNow(vhBase)
+	sys, ctx := vhSystem("A", ttl, false, linear == 1)
+	var wg sync.WaitGroup
+	wg.Add(2)
+	var l1, l2 *Location
+	var e1, e2 error
+	c1, c2 := ctx.SubContext(), ctx.SubContext()
+	go func() {
+		l1, e1 = sys.findLocation(c1, "shared", false)
+		wg.Done()
+	}()
+	go func() {
+		l2, e2 = sys.findLocation(c2, "shared", false)
+		wg.Done()
+	}()
+	wg.Wait()
+	vassert(e1 == nil && e2 == nil && l1 != nil && l2 != nil, "open-returns-location-or-error")
+	vassert(l1 == l2, "concurrent-first-requests-share-one-instance")
+	sys.releaseLocation(c1, "shared")
+	sys.releaseLocation(c2, "shared")
 	vreach("end")
 }
